@@ -710,6 +710,12 @@ func genCase(r *vproto.Rng, tier string) fcase {
 			if loose && c.w.path == 'F' && r.Intn(15) == 0 { // a value of another type in that column
 				p = colPlan{kind: []string{"i", "f", "s"}[r.Intn(3)], numText: true}
 			}
+			if i > 0 && j < len(c.recs[i-1].vals) && r.Intn(6) == 0 {
+				// the same value as in the previous record (consecutive records sharing attribute values are the rule in
+				// real tables): a writer or reader that treats "unchanged since the last row" specially shows here
+				rc.vals = append(rc.vals, c.recs[i-1].vals[j])
+				continue
+			}
 			rc.vals = append(rc.vals, genVal(r, p, widths[j]))
 		}
 		for j := 0; j < extra && nv == ncols; j++ {
@@ -819,6 +825,18 @@ func corpus() []fcase {
 		rd := spec{path: 'S', reuse: true, sf: []sfield{{"G", "", "gP"}, {"ID", "", "i"}, {"Name", "", "s"}, {"V", "", "f"}, {"Note", "", "s"}}}
 		out = append(out, fcase{w: ws, r: rd, recs: recs}, fcase{w: wf, r: rd, recs: recs})
 		out = append(out, fcase{w: ws, r: spec{path: 'M', calls: []spec{rd, {path: 'F'}, rd}}, recs: recs})
+	}
+	// 7e. consecutive records with the SAME attribute values (and a change back): every record carries its own values
+	{
+		ws := spec{path: 'S', sf: []sfield{{"G", "", "gP"}, {"ID", "", "i"}, {"Name", "", "s"}, {"V", "", "f"}}}
+		wf := spec{path: 'F', shpTyp: 1, ff: []ffield{{"ID", 'N', 10, 0}, {"Name", 'C', 50, 0}, {"V", 'F', 30, 10}}}
+		recs := []rec{{P(1, 2), []val{iv(4), sv("same"), fv(1.5)}}, {P(3, 4), []val{iv(4), sv("same"), fv(1.5)}}, {P(5, 6), []val{iv(4), sv("same"), fv(1.5)}},
+			{P(7, 8), []val{iv(5), sv("other"), fv(2.5)}}, {P(9, 9), []val{iv(4), sv("same"), fv(1.5)}}, {P(9, 9), []val{iv(4), sv("same"), fv(1.5)}}}
+		rd := spec{path: 'S', sf: []sfield{{"G", "", "gP"}, {"ID", "", "i"}, {"Name", "", "s"}, {"V", "", "f"}}}
+		rr := spec{path: 'S', reuse: true, sf: rd.sf}
+		rf := spec{path: 'F', names: []string{"id", "name", "v"}}
+		out = append(out, fcase{w: ws, r: rd, recs: recs}, fcase{w: ws, r: rr, recs: recs}, fcase{w: ws, r: rf, recs: recs},
+			fcase{w: wf, r: rd, recs: recs}, fcase{w: wf, r: rr, recs: recs}, fcase{w: wf, r: rf, recs: recs})
 	}
 	// 7d. writer schedules: Encode and EncodeFields mixed on one NewEncoder encoder share the row cursor
 	{
